@@ -67,6 +67,11 @@ type tcase struct {
 	Agg      acfg   `json:"aggregator"`
 	Backends bcfg   `json:"backends"`
 	Steps    []step `json:"steps"`
+	// Config, when set, replaces the standard backend set by ONE backend built from configuration text
+	Config *cfgCase `json:"config,omitempty"`
+	// CancelAtRequest k > 0: the endpoint holds every request; the flush context is cancelled when the
+	// k-th request of the flush has arrived (k-1 were answered)
+	CancelAtRequest int `json:"cancel_at_request,omitempty"`
 }
 
 // witness is what is written ahead of every SendMetricsAsync and attached to every violation: the
@@ -97,10 +102,11 @@ type env struct {
 	logger logrus.FieldLogger
 	cw     *cwMock
 
-	cfg      bcfg
-	ctx      context.Context
-	cancel   context.CancelFunc
-	backends []backend
+	cfg          bcfg
+	lastAccepted bool // outcome of the last configureFromText
+	ctx          context.Context
+	cancel       context.CancelFunc
+	backends     []backend
 }
 
 func newEnv(r *mon.Run) (*env, error) {
@@ -272,6 +278,12 @@ func (e *env) run(cs *tcase) {
 	agg := statsd.NewMetricAggregator(append([]float64(nil), cs.Agg.Percentiles...), d(tCounter), d(tGauge), d(tSet), d(tTimer), subtypes(cs.Backends.Disabled), cs.Agg.Limit)
 	now := int64(0)
 	agg.VerifSetNow(func() time.Time { return time.Unix(0, baseTime+now) })
+	if cs.Config != nil {
+		if !e.configureFromText(cs) {
+			return
+		}
+		defer e.stop()
+	}
 	e.r.Event("histories", 1)
 	for i, s := range cs.Steps {
 		switch s.Op {
@@ -285,7 +297,7 @@ func (e *env) run(cs *tcase) {
 			agg.ReceiveMap(mm)
 			e.r.Event("batches", 1)
 		case "flush":
-			prefix := witness{Flush: i, Case: tcase{Agg: cs.Agg, Backends: cs.Backends, Steps: cs.Steps[:i+1]}}
+			prefix := witness{Flush: i, Case: tcase{Agg: cs.Agg, Backends: cs.Backends, Steps: cs.Steps[:i+1], Config: cs.Config, CancelAtRequest: cs.CancelAtRequest}}
 			pj, _ := json.Marshal(&prefix)
 			e.r.Case("%s", pj)
 			if e.r.Guard("aggregator-panic:flush", json.RawMessage(pj), func() { agg.Flush(time.Duration(s.NS)) }) {
@@ -301,6 +313,11 @@ func (e *env) run(cs *tcase) {
 				for _, b := range e.backends {
 					prefix.Backend = b.variant
 					wj, _ := json.Marshal(&prefix)
+					if cs.CancelAtRequest > 0 {
+						e.sendCancelled(b, mm, wj, cs.CancelAtRequest)
+						healthy = false // the context of this backend is gone
+						return
+					}
 					if !e.send(b, mm, wj) {
 						healthy = false
 						return
@@ -312,6 +329,9 @@ func (e *env) run(cs *tcase) {
 			})
 			if !healthy {
 				// a backend panicked or hung: its pools / goroutines may be poisoned and it may still read the map
+				if cs.Config != nil {
+					return
+				}
 				if err := e.configure(cs.Backends); err != nil {
 					e.r.Inconclusive("rebuild-failed")
 				}
@@ -524,7 +544,7 @@ func corpus() []*tcase {
 func TestCheck(t *testing.T) {
 	r := mon.Start(t, "C04")
 	defer r.Finish()
-	r.Rule("cases: histories of up to 14 steps (merge batch | flush | advance clock) over a real MetricAggregator whose clock is virtual; 0..5 integer percentiles in [-100,100] (pool ±100 ±90 ±50 ±1 0), histogram limit from {0,1,2,3,MaxUint32}, per-type expiry from {0,10s,1s,-1s} so that idle persisted series occur, sub-metric masks (none, one flag, all, all plain ones, random); batches of counters, gauges, sets and timers (bursts of 2..5 values on one series) over 7 names x 20 tag sets x 3 sources, with and without gsd_histogram tags including malformed lists (empty, a__b, nan, inf, duplicates, overflow, two histogram tags, 12 tags); values 0, -0, small integers, ±1e308, MaxFloat64, ±Inf, 5e-324; after every flush the map given to Process goes, one backend at a time, to SendMetricsAsync of 20 backend variants built through their viper factories against local sinks: graphite legacy/basic/tags, datadog, influxdb v1/v2 x gzip, newrelic infra/insights/metrics, otlp AsGauge/AsHistogram x resource keys, statsdaemon udp/tcp, stdout, null, cloudwatch (mock API); batch sizes from {1,...,default}. Oracle: no panic in Flush/Process/Reset or in SendMetricsAsync (recover), no process death (write-ahead case log), the callback arrives. One evaluation = one completed SendMetricsAsync. Non-trivial: a flushed map with a timer with n >= 1, an idle persisted timer or a histogram; distinct by (percentile sign pattern, n class {0,1,2,3+}) resp. (n class, limit, bucket count class) x backend variant.")
+	r.Rule("cases: histories of up to 14 steps (merge batch | flush | advance clock) over a real MetricAggregator whose clock is virtual; 0..5 integer percentiles in [-100,100] (pool ±100 ±90 ±50 ±1 0), histogram limit from {0,1,2,3,MaxUint32}, per-type expiry from {0,10s,1s,-1s} so that idle persisted series occur, sub-metric masks (none, one flag, all, all plain ones, random); batches of counters, gauges, sets and timers (bursts of 2..5 values on one series) over 7 names x 20 tag sets x 3 sources, with and without gsd_histogram tags including malformed lists (empty, a__b, nan, inf, duplicates, overflow, two histogram tags, 12 tags); values 0, -0, small integers, ±1e308, MaxFloat64, ±Inf, 5e-324; after every flush the map given to Process goes, one backend at a time, to SendMetricsAsync of 20 backend variants built through their viper factories against local sinks: graphite legacy/basic/tags, datadog, influxdb v1/v2 x gzip, newrelic infra/insights/metrics, otlp AsGauge/AsHistogram x resource keys, statsdaemon udp/tcp, stdout, null, cloudwatch (mock API); batch sizes from {1,...,default}. Further phases: (config) 1600 quick / 40000 thorough single backends (datadog, influxdb, newrelic, otlp, graphite, statsdaemon) built by backends.InitBackend from configuration TEXT (toml) with batch sizes from {-1000..0..100000, quoted, non-numeric, fractional}, valid and invalid flush types / api versions / conversions / modes / time-outs / missing keys: either the constructor refuses or a whole history is flushed through the backend without a crash; (cancel) 640 / 16000 flushes of several batches to an HTTP backend with max-requests 1..2 whose endpoint holds every request: k-1 requests are answered and the flush context is cancelled when the k-th (k = 1..5) is in flight; (server) 48 / 640 real statsd.Server instances with graphite / statsdaemon tcp+udp / null backends whose Run functions sit in Server.Runnables next to 0..2 slow-to-stop runnables, flush interval 0.5..3 ms on the real clock, fed a few datagrams and stopped after 5..35 ms while flush ticks keep arriving. Oracle: no panic in Flush/Process/Reset or in SendMetricsAsync (recover), no process death (write-ahead case log), the callback arrives. One evaluation = one completed SendMetricsAsync. Non-trivial: a flushed map with a timer with n >= 1, an idle persisted timer or a histogram; distinct by (percentile sign pattern, n class {0,1,2,3+}) resp. (n class, limit, bucket count class) x backend variant.")
 	r.Assume("an HTTP sink that answers 200 with an empty body; panics on goroutines of the backends are seen as death of the child process")
 	// the backends take 1 MB buffers and flate writers from pools that every GC cycle empties
 	debug.SetGCPercent(400)
@@ -553,6 +573,11 @@ func TestCheck(t *testing.T) {
 		cs := &tcase{Agg: genAgg(rng), Backends: bc, Steps: genSteps(rng)}
 		e.run(cs)
 	}
+	// phases that reach the code around the payload builders: constructors from configuration text,
+	// cancellation between batches, start and stop of a real server with socket backends (phases_test.go)
+	configPhase(e, r.Rand("c04-config"), r.N(1600, 40000))
+	cancelPhase(e, r.Rand("c04-cancel"), r.N(640, 16000))
+	serverPhase(e, r.Rand("c04-server"), r.N(48, 640))
 	if s, _ := r.Shard(); s == 0 {
 		cc := corpus()
 		for _, cs := range cc {
@@ -571,17 +596,34 @@ func TestCheck(t *testing.T) {
 
 func replay(t *testing.T, r *mon.Run, e *env, p []byte) {
 	var w witness
+	var sw struct {
+		Server *serverCase `json:"server_case"`
+	}
+	if mon.ReplayCase(p, &sw) != nil && sw.Server != nil {
+		runServerCase(r, e, sw.Server)
+		r.Nontrivial("replay-a")
+		r.Nontrivial("replay-b")
+		return
+	}
 	if mon.ReplayCase(p, &w) == nil || len(w.Case.Steps) == 0 {
 		// a crash witness: {"last_case": "<write-ahead line>"}
 		var f struct {
 			Last string `json:"last_case"`
 		}
+		if json.Unmarshal(p, &f) == nil && json.Unmarshal([]byte(f.Last), &sw) == nil && sw.Server != nil {
+			runServerCase(r, e, sw.Server)
+			r.Nontrivial("replay-a")
+			r.Nontrivial("replay-b")
+			return
+		}
 		if json.Unmarshal(p, &f) != nil || json.Unmarshal([]byte(f.Last), &w) != nil || len(w.Case.Steps) == 0 {
 			t.Skip("no case in replay file")
 		}
 	}
-	if err := e.configure(w.Case.Backends); err != nil {
-		t.Fatalf("harness: cannot build the backends: %v", err)
+	if w.Case.Config == nil {
+		if err := e.configure(w.Case.Backends); err != nil {
+			t.Fatalf("harness: cannot build the backends: %v", err)
+		}
 	}
 	e.run(&w.Case)
 	r.Nontrivial("replay-a")
